@@ -79,6 +79,9 @@ SESSION_PROG = [
     b'30 Z$=MID$(B$,P%)',
     b'35 IF G0% THEN F=FRE("")',
     b'40 C$=T$+"": W$=S$',
+    # concatenation with an empty left operand must give a copy, not an alias of the right operand
+    b'45 Q$=N$+B$: U$=N$+A$: IF LEN(Q$)>0 THEN MID$(Q$,1)="#"',
+    b'46 O$=S$+"": MID$(O$,2)=N$+O$',
     b'50 IF G1% THEN F=FRE("")',
     b'60 D$=B$+C$+(Z$+LEFT$(T$,1+0*FRE("")))',
     # under memory pressure: collect, then pad string space so that exactly R% bytes stay free
@@ -103,7 +106,7 @@ def body_session(h):
         impl.execute(line)
     impl.execute(b'L%=0:P%=0:K%=0:G0%=0:G1%=0:G3%=0:OK%=0:M%=0:R%=0:F=0:I%=0')
     # every variable exists before memory is filled, so that only string space is needed afterwards
-    impl.execute(b'Z$="":A$="":B$="":C$="":D$="":E$="":V$="":W$="":S$="":T$="":PAD$=""')
+    impl.execute(b'Z$="":A$="":B$="":C$="":D$="":E$="":V$="":W$="":S$="":T$="":PAD$="":N$="":Q$="":U$="":O$=""')
     L = h.choice('L', [0, 2, 6])
     P = h.choice('P', [1, 2, 3, 7])
     K = h.choice('K', [1, 4, 8])
@@ -136,7 +139,8 @@ def body_session(h):
     n = min(len(B), len(A) - K + 1)
     A2 = A[:K - 1] + B[:n] + A[K - 1 + n:]
     E = A2 + Z
-    want = {b'A$': A2, b'B$': B, b'Z$': Z, b'C$': C, b'D$': D, b'E$': E, b'W$': S, b'S$': [], b'PAD$': [],
+    want = {b'A$': A2, b'B$': B, b'Z$': Z, b'C$': C, b'D$': D, b'E$': E, b'W$': S, b'S$': [], b'PAD$': [], b'N$': [], b'Q$': ([35] + B[1:]) if B else [],
+            b'U$': A, b'O$': S[:1] + S[:5],
             b'T$': T + [33], b'V$': D + E}
     obs = []
     for name in sorted(want):
@@ -175,6 +179,40 @@ def body_first_string(h):
     return [list(got), list(got2)]
 
 
+def body_swap(h):
+    """SWAP of a string with an element of an array that does not exist yet, when creating the array has
+    to collect garbage first (and the collection moves the string)"""
+    from . import session
+    impl = session.mk_impl(h, max_memory=8000)
+    impl.execute(b'M%=250:R%=0:I%=0:F=0:L%=0')
+    impl.execute(b'A$="":G$="":S$="":PAD$="":K$=""')
+    sv = h.bytes('s', 4)
+    r = h.choice('R', [3, 20, 41])
+    order = h.choice('order', ['scalar-first', 'array-first'])
+    for line in FILL:
+        impl.execute(line)
+    impl.execute(b'G$=STRING$(60,"g")')
+    impl.set_variable(b'S$', sv)
+    impl.execute(b'A$=S$+"": K$=S$+"k": R%%=%d' % r)
+    impl.execute(b'F=FRE(""): PAD$=STRING$(F-R%,"p"): G$=""')
+    stmt = b'SWAP A$,H$(1)' if order == 'scalar-first' else b'SWAP H$(1),A$'
+    res = h.call(impl.execute, stmt + b': L%=LEN(H$(1))')
+    h.require('no-host-exception', res[0] == 'ok', res)
+    h.require('no-error', impl.interpreter.error_num == 0, impl.interpreter.error_num)
+    vals = {}
+    for name in (b'A$', b'K$', b'S$'):
+        got = h.call(impl.get_variable, name)
+        h.require('readable-' + name.decode(), got[0] == 'ok', got)
+        vals[name] = got[1] if got[0] == 'ok' else None
+    arr = h.call(impl.get_variable, b'H$()')
+    h.require('array-readable', arr[0] == 'ok', arr)
+    if arr[0] == 'ok' and all(v is not None for v in vals.values()):
+        S = list(sv)
+        h.require('swapped', s_and(len(vals[b'A$']) == 0, len(arr[1][1]) == 4, bytes_eq(arr[1][1], S)), arr[1][1])
+        h.require('others-kept', s_and(bytes_eq(vals[b'K$'], S + [107]), bytes_eq(vals[b'S$'], S)))
+    return [res[0]]
+
+
 def cases(tier):
     cs = []
     shapes = [(1,), (0, 2), (2, 1), (3, 0, 1), (1, 1, 1), (2, 3, 1)]
@@ -184,6 +222,7 @@ def cases(tier):
         for nl in (0, 2):
             cs.append(Case('heap-%s-new%d' % ('_'.join(map(str, lens)), nl), body,
                            params={'lens': lens, 'newlen': nl}, max_fanout=100))
+    cs.append(Case('session-swap-into-new-array', body_swap, max_fanout=100, timeout_s=900))
     cs.append(Case('session-first-string', body_first_string, max_fanout=100, timeout_s=900))
     for tight in ([0, 250, 180] if tier != 'thorough' else [0, 250, 230, 200, 180]):
         cs.append(Case('session-strings-free%d' % tight, body_session, params={'tight': tight},
